@@ -125,6 +125,13 @@ def apply_site(site, circ, ovr, extra=None):
         return lambda: fill_in_map(fill_in_let(circ, override_dict=ovr_dict(ovr) if ovr else None))
     if site == 'expand_subcircuits':
         return lambda: expand_subcircuits(circ)
+    if site in ('expand_subcircuits_defs', 'expand_subcircuits_again'):
+        # caller-supplied prepare / measure definitions; "again": the plain call AFTER such a call on the same circuit object
+        from jaqalpaq.core.gatedef import BusyGateDefinition
+        hw = dict(prepare_def=BusyGateDefinition('prepare_hw'), measure_def=BusyGateDefinition('measure_hw'))
+        if site == 'expand_subcircuits_defs':
+            return lambda: expand_subcircuits(circ, **hw)
+        return lambda: (expand_subcircuits(circ, **hw), expand_subcircuits(circ))[1]
     if site == 'unit_timing':
         from jaqalpaq.core.algorithm import normalize_blocks_with_unitary_timing
         return lambda: normalize_blocks_with_unitary_timing(circ)
@@ -152,8 +159,9 @@ def run_program(job):
     inp = pout['prog']
     for n, (site, ovr) in enumerate(job['sites']):
         o, _ = outcome(apply_site(site, circ, ovr))
+        hw = site == 'expand_subcircuits_defs'
         cases.append({'id': '%s/%s/%d' % (job['id'], site, n), 'site': site, 'inp': inp, 'ovr': ovr, 'out': o,
-                      'text': text, 'prep': 'prepare_all', 'meas': 'measure_all'})
+                      'text': text, 'prep': 'prepare_hw' if hw else 'prepare_all', 'meas': 'measure_hw' if hw else 'measure_all'})
     return cases
 
 
